@@ -58,6 +58,8 @@ inductive Reaction
   | newCall            -- conn.callRemote(...) (no timeout): a retry
   | unregisterSelf     -- cancelNotifyOnDisconnect(itself)   (no-op for a call's errback)
   | registerAnother    -- notifyOnDisconnect(<a new callback that does nothing>)
+  | newProxy           -- getRemoteObject(..., <explicit interfaces>) on the same connection (the proxy is made and
+                       -- registered synchronously) and notifyOnDisconnect(<a callback that does nothing>) on it
 deriving DecidableEq, Repr
 
 structure Cb where
@@ -201,7 +203,22 @@ def issueCall (timed : Bool) (k : CallKind) (s : St) : St :=
            timers := if timed then s.timers ++ [s.nextSerial] else s.timers,
            nextSerial := s.nextSerial + 1 }
 
-def react (who : Who) (r : Reaction) (s : St) : St :=
+/-- `self._weakProxies[key] = prox` (WeakValueDictionary: dead entries are gone already). -/
+def regSet (k p : Nat) : List (Nat × Nat) → List (Nat × Nat)
+  | [] => [(k, p)]
+  | (k', p') :: t => if k' = k then (k', p) :: t else (k', p') :: regSet k p t
+
+/-- A new RemoteDBusObject (with disconnect callbacks `cbs`); registered or not according to the variant. -/
+def makeProxyCbs (v : Variant) (key : Nat) (explicit : Bool) (cbs : List Cb) (s : St) : St :=
+  let p : Proxy := { id := s.nextProxy, key := key, explicit := explicit, alive := true, cbs := cbs }
+  let slot := if v.perProxySlot then p.id else key
+  let reg := if explicit && !v.registerExplicit then s.registry else regSet slot p.id s.registry
+  { s with proxies := s.proxies ++ [p], registry := reg, nextProxy := s.nextProxy + 1 }
+
+/-- `getRemoteObject` at the moment the RemoteDBusObject is made. -/
+def makeProxy (v : Variant) (key : Nat) (explicit : Bool) (s : St) : St := makeProxyCbs v key explicit [] s
+
+def react (v : Variant) (who : Who) (r : Reaction) (s : St) : St :=
   match r with
   | .nothing => s
   | .newCall => issueCall false (.user .nothing) s
@@ -216,24 +233,27 @@ def react (who : Who) (r : Reaction) (s : St) : St :=
       { s with proxies := modifyProxy p (fun q => { q with cbs := q.cbs ++ [⟨s.nextCb, .nothing⟩] }) s.proxies,
                nextCb := s.nextCb + 1 }
     | _ => { s with dcCallbacks := s.dcCallbacks ++ [⟨s.nextCb, .nothing⟩], nextCb := s.nextCb + 1 }
+  | .newProxy =>
+    -- a new proxy from explicit interfaces, with one callback; whoever is running
+    { makeProxyCbs v 0 true [⟨s.nextCb, .nothing⟩] s with nextCb := s.nextCb + 1 }
 
 /-! ## connectionLost -/
 
 /-- `cb(self, reason)` for one connection-level callback. -/
-def runConnCb (c : Cb) (s : St) : St := react (.connCb c) c.react (s.emit (.connCb c.id))
+def runConnCb (v : Variant) (c : Cb) (s : St) : St := react v (.connCb c) c.react (s.emit (.connCb c.id))
 
 /-- `for cb in list(self._dcCallbacks): cb(self, reason)` over the copy `cbs`. -/
-def runConnCbs : List Cb → St → St
+def runConnCbs (v : Variant) : List Cb → St → St
   | [], s => s
-  | c :: t, s => runConnCbs t (runConnCb c s)
+  | c :: t, s => runConnCbs v t (runConnCb v c s)
 
 /-- Pre-repair: `for cb in self._dcCallbacks:` walks the live list by index. -/
-def runConnCbsLive : Nat → Nat → St → St
+def runConnCbsLive (v : Variant) : Nat → Nat → St → St
   | 0, _, s => s
   | fuel + 1, i, s =>
     match s.dcCallbacks[i]? with
     | none => s
-    | some c => runConnCbsLive fuel (i + 1) (runConnCb c s)
+    | some c => runConnCbsLive v fuel (i + 1) (runConnCb v c s)
 
 def errKindOf : CallKind → ErrKind
   | .introspect _ => .introspectionFailed
@@ -244,36 +264,36 @@ def reactionOf : CallKind → Reaction
   | _ => .nothing
 
 /-- `if timeout: timeout.cancel()` then `d.errback(reason)` for one entry. -/
-def failCall (c : Call) (s : St) : St :=
+def failCall (v : Variant) (c : Call) (s : St) : St :=
   let s := if c.timed then { s with timers := s.timers.filter (· ≠ c.serial), log := s.log ++ [.timerCancelled c.serial] } else s
-  react (.errback c) (reactionOf c.kind) (s.emit (.callErr c.serial (errKindOf c.kind)))
+  react v (.errback c) (reactionOf c.kind) (s.emit (.callErr c.serial (errKindOf c.kind)))
 
 /-- The walk over the (old) pending table `calls`. -/
-def failCalls : List Call → St → St
+def failCalls (v : Variant) : List Call → St → St
   | [], s => s
-  | c :: t, s => failCalls t (failCall c s)
+  | c :: t, s => failCalls v t (failCall v c s)
 
 /-- Pre-repair: the walk over the live dict; an errback that adds an entry makes the next step of the
 dict iterator raise RuntimeError (also after the last entry): `true` = the exception escaped. -/
-def failCallsLive : List Call → St → St × Bool
+def failCallsLive (v : Variant) : List Call → St → St × Bool
   | [], s => (s, false)
   | c :: t, s =>
-    let s' := failCall c s
-    if s'.pending.length ≠ s.pending.length then (s', true) else failCallsLive t s'
+    let s' := failCall v c s
+    if s'.pending.length ≠ s.pending.length then (s', true) else failCallsLive v t s'
 
 /-- `RemoteDBusObject.connectionLost`: `if self._disconnectCBs: for cb in list(self._disconnectCBs): cb(self, reason)`. -/
-def runProxyCb (p : Nat) (c : Cb) (s : St) : St := react (.proxyCb p c) c.react (s.emit (.proxyCb p c.id))
+def runProxyCb (v : Variant) (p : Nat) (c : Cb) (s : St) : St := react v (.proxyCb p c) c.react (s.emit (.proxyCb p c.id))
 
-def runProxyCbs (p : Nat) : List Cb → St → St
+def runProxyCbs (v : Variant) (p : Nat) : List Cb → St → St
   | [], s => s
-  | c :: t, s => runProxyCbs p t (runProxyCb p c s)
+  | c :: t, s => runProxyCbs v p t (runProxyCb v p c s)
 
-def runProxyCbsLive (p : Nat) : Nat → Nat → St → St
+def runProxyCbsLive (v : Variant) (p : Nat) : Nat → Nat → St → St
   | 0, _, s => s
   | fuel + 1, i, s =>
     match (findProxy p s.proxies).bind (fun q => q.cbs[i]?) with
     | none => s
-    | some c => runProxyCbsLive p fuel (i + 1) (runProxyCb p c s)
+    | some c => runProxyCbsLive v p fuel (i + 1) (runProxyCb v p c s)
 
 /-- `for wref in self._weakProxies.valuerefs(): p = wref(); if p is not None: p.connectionLost(reason)`
 over the copy `slots` of the registry. -/
@@ -283,8 +303,8 @@ def runProxies (v : Variant) : List (Nat × Nat) → St → St
     match findProxy p s.proxies with
     | some q =>
       if q.alive then
-        let s := if v.snapshotCallbacks then runProxyCbs p q.cbs s
-                 else runProxyCbsLive p (2 * q.cbs.length + 1) 0 s
+        let s := if v.snapshotCallbacks then runProxyCbs v p q.cbs s
+                 else runProxyCbsLive v p (2 * q.cbs.length + 1) 0 s
         runProxies v t s
       else runProxies v t s
     | none => runProxies v t s
@@ -297,32 +317,20 @@ def connectionLost (v : Variant) (s : St) : St :=
     { s with phase := .closedEarly }
   else
     let s := { s with phase := .lost }
-    let s := if v.snapshotCallbacks then runConnCbs s.dcCallbacks s
-             else runConnCbsLive (2 * s.dcCallbacks.length + 1) 0 s
+    let s := if v.snapshotCallbacks then runConnCbs v s.dcCallbacks s
+             else runConnCbsLive v (2 * s.dcCallbacks.length + 1) 0 s
     if v.snapshotPending then
       -- pending, self._pendingCalls = self._pendingCalls, {}
-      let s := failCalls s.pending { s with pending := [] }
+      let s := failCalls v s.pending { s with pending := [] }
       runProxies v s.registry s
     else
-      match failCallsLive s.pending s with
+      match failCallsLive v s.pending s with
       | (s', true) => s'.emit .crashed      -- RuntimeError: nothing after the loop runs
       | (s', false) =>
         let s := { s' with pending := [] }  -- self._pendingCalls = {}
         runProxies v s.registry s
 
 /-! ## The remaining operations -/
-
-/-- `self._weakProxies[key] = prox` (WeakValueDictionary: dead entries are gone already). -/
-def regSet (k p : Nat) : List (Nat × Nat) → List (Nat × Nat)
-  | [] => [(k, p)]
-  | (k', p') :: t => if k' = k then (k', p) :: t else (k', p') :: regSet k p t
-
-/-- A new RemoteDBusObject; registered or not according to the variant. -/
-def makeProxy (v : Variant) (key : Nat) (explicit : Bool) (s : St) : St :=
-  let p : Proxy := { id := s.nextProxy, key := key, explicit := explicit, alive := true, cbs := [] }
-  let slot := if v.perProxySlot then p.id else key
-  let reg := if explicit && !v.registerExplicit then s.registry else regSet slot p.id s.registry
-  { s with proxies := s.proxies ++ [p], registry := reg, nextProxy := s.nextProxy + 1 }
 
 def findCall (serial : Nat) : List Call → Option Call
   | [] => none
